@@ -9,6 +9,7 @@ import Driver.Codec
 import Driver.CrdtRich
 import Driver.CrdtPatch
 import Driver.CrdtX
+import Driver.CrdtStore
 import Driver.Capi
 import Driver.Anon
 /-
@@ -46,6 +47,7 @@ def step (st : DState) (toks : List String) : DState × List String :=
         if cmd.startsWith "crdt.rt." then Driver.CrdtRich.exec st.crdt toks
         else if cmd.startsWith "crdt.patch." then Driver.CrdtPatch.exec st.crdt toks
         else if cmd.startsWith "crdt.x." then Driver.CrdtX.exec st.crdt toks
+        else if cmd.startsWith "crdt.st." then Driver.CrdtStore.exec st.crdt toks
         else Driver.Crdt.exec st.crdt toks
       ({ st with crdt := c }, out)
     | some "anon" =>
